@@ -422,6 +422,28 @@ func c06Cells(thorough bool) []c06Cell {
 		"fixed/assign-list-with-program-call":       {"vs, vi = @echo(\"a\"), 1\n", "reject"},
 		"fixed/program-call-three-values-ok":        {"t, u, w := @echo(\"a\")\nprint(t, u, w)\n", "accept"},
 		"fixed/program-call-two-values":             {"t, u := @echo(\"a\")\n", "reject"},
+		// a program call yields three values; where one string is required it is refused like any multi-value call
+		"fixed/program-call-as-argument":      {"func takes(p string) int {\n\treturn len(p)\n}\nt := takes(@echo(\"hi\"))\n", "reject"},
+		"fixed/program-call-as-operand":       {"t := \"say: \" + @echo(\"hi\")\n", "reject"},
+		"fixed/program-call-as-left-operand":  {"t := @echo(\"hi\") + \"!\"\n", "reject"},
+		"fixed/program-call-compared":         {"if @echo(\"hi\") == \"hi\" {\n}\n", "reject"},
+		"fixed/program-call-as-element":       {"t := []string{@echo(\"a\")}\n", "reject"},
+		"fixed/program-call-as-element-store": {"ss[0] = @echo(\"a\")\n", "reject"},
+		"fixed/program-call-ranged":           {"for i, ch := range @echo(\"xyz\") {\n}\n", "reject"},
+		"fixed/program-call-in-len":           {"t := len(@echo(\"hi\"))\n", "reject"},
+		"fixed/program-call-in-exists":        {"t := exists(@pwd())\n", "reject"},
+		"fixed/program-call-in-read":          {"t := read(@echo(\"f\"))\n", "reject"},
+		"fixed/program-call-in-write":         {"write(@echo(\"f\"), \"x\")\n", "reject"},
+		"fixed/program-call-as-switch-tag":    {"switch @echo(\"a\") {\ncase \"a\":\n}\n", "reject"},
+		"fixed/program-call-as-case":          {"switch vs {\ncase @echo(\"a\"):\n}\n", "reject"},
+		"fixed/program-call-returned":         {"func r() string {\n\treturn @echo(\"a\")\n}\n", "reject"},
+		"fixed/program-call-compound":         {"vs += @echo(\"a\")\n", "reject"},
+		"fixed/program-call-assigned-to-one":  {"vs = @echo(\"a\")\n", "reject"},
+		"fixed/program-call-defined-to-one":   {"t := @echo(\"a\")\n", "reject"},
+		"fixed/program-call-in-itoa":          {"t := itoa(@echo(\"1\"))\n", "reject"},
+		"fixed/program-call-subscripted":      {"t := @echo(\"abc\")[1]\n", "reject"},
+		"fixed/program-call-in-print-ok":      {"print(@echo(\"a\"))\n", "accept"},
+		"fixed/program-call-in-program-call-ok": {"@echo(@echo(\"a\"))\n", "accept"},
 		"fixed/return-ok-two":         {"func r() (int, string) {\nreturn 1, \"a\"\n}\n", "accept"},
 		"fixed/write-too-few":         {"write(vs)\n", "reject"},
 		"fixed/write-too-many":        {"write(vs, vs, vb, vb)\n", "reject"},
